@@ -159,7 +159,7 @@ def hyp_part(n_examples, shard):
 
 
 def run(tier, t0):
-    part = runner.hyp_shards("vf.props.c06", "hyp_part", 10000 if tier == "quick" else 320000)
+    part = runner.hyp_shards("vf.props.c06", "hyp_part", 10000 if tier == "quick" else 200000)
     rule = ("accepted vector + one clause of the statement applied to a non-empty random subset of the eligible metrics: "
             "(a) Not Defined Modified metric := base value, (b) Not Defined := declared equivalent, (c) v4 supplemental "
             "add/change/remove, (d) overridden base metric changed (an override is forced into the vector), (e) temporal/"
